@@ -13,3 +13,29 @@ package sumdb
 //@   ghostmodifies n_fo, fo_id, fo_origin, fo_v, fo_w
 //@   ensures[C12.feed] n_fo <= old(n_fo) + 1
 //@   ensures[C12.feed] n_fo == old(n_fo) + 1 ==> fo_id == l.ID && fo_origin == l.Origin && fo_v == l.Verifier && fo_w == w
+
+// fetchProof closure. The 32-byte hash precondition holds for every checkpoint this feeder submits: its
+// FetchCheckpoint only returns bytes that tlog.ParseTree accepted (hash of exactly 32 bytes), and FeedOnce
+// parses those same bytes (link read, not verified).
+//@ func FeedLog$1
+//@   returns (p, err)
+//@   let toSize   := to.Size
+//@   let fromSize := from.Size
+//@   prefer to.Size < 9223372036854775808 && from.Size >= 1 && from.Size <= 8
+//@   requires sdb != nil && sdb.fetcher != nil && len(to.Hash) >= 32
+//@   modifies heap
+//@   ensures[C19.s] err != nil ==> p == nil
+//@   invariant#1 0 <= $i && $i <= len(proof) && r != nil
+//@   decreases#1 len(proof) - $i
+
+//@ func FeedLog$2
+//@   returns (b, err)
+//@   requires sdb != nil && sdb.fetcher != nil
+//@   ensures[C19.s] true
+
+//@ func (tileReader).ReadTiles
+//@   returns (r, err)
+//@   requires tr.c != nil && tr.c.fetcher != nil
+//@   ensures[C19.s] err != nil ==> r == nil
+//@   invariant#1 0 <= $i && $i <= len(tiles)
+//@   decreases#1 len(tiles) - $i
